@@ -167,8 +167,8 @@ Proof.
     pose proof (Nat.div_mod p step ltac:(lia)) as D.
     assert (Hle : p / step * step <= p) by (rewrite Nat.mul_comm; lia).
     split.
-    + apply in_seq. split; [apply Nat.le_0_l|]. simpl. assert (p / step <= p) by (apply Nat.div_le_upper_bound; nia).
-      remember (p / step) as q. lia.
+    + apply in_seq. split; [apply Nat.le_0_l|]. simpl. assert (p / step <= N / step) by (apply Nat.div_le_mono; lia).
+      remember (p / step) as q. remember (N / step) as qq. lia.
     + remember (p / step) as q. remember (p mod step) as r.
       replace (q * step <? N) with true by (symmetry; apply Nat.ltb_lt; lia).
       apply filter_In. split; [|apply Nat.leb_le; lia].
@@ -196,8 +196,9 @@ Proof.
     remember (p / step) as q. remember (p mod step) as r.
     assert (Hx : x = q + 1 + (x - 1 - q)) by lia. remember (x - 1 - q) as e.
     assert (Ek : N - e * step = (q + 1) * step) by (subst N; rewrite Hx; nia).
+    assert (HNs : N / step = x) by (subst N; apply Nat.div_mul; lia).
     split.
-    + apply in_seq. split; [lia|]. simpl. nia.
+    + apply in_seq. split; [lia|]. simpl. rewrite HNs. lia.
     + replace (e * step <? N) with true by (symmetry; apply Nat.ltb_lt; nia).
       rewrite Ek. apply in_map_iff. exists (step - 1 - r). split; [nia|].
       apply filter_In. split; [apply in_seq; lia|apply Nat.ltb_lt; nia].
@@ -297,9 +298,9 @@ Proof.
     pose proof (Nat.div_mod p step ltac:(lia)) as D.
     pose proof (Nat.div_mod f step ltac:(lia)) as Df.
     assert (Hmono : f / step <= p / step) by (apply Nat.div_le_mono; lia).
-    assert (Hpp : p / step <= p) by (apply Nat.div_le_upper_bound; nia).
+    assert (Hpp : p / step <= (f + nv) / step) by (apply Nat.div_le_mono; lia).
     exists (p / step - f / step).
-    remember (p / step) as a. remember (f / step) as b. remember (p mod step) as r.
+    remember (p / step) as a. remember (f / step) as b. remember (p mod step) as r. remember ((f + nv) / step) as fuel.
     assert (Ek : step * b + (a - b) * step = step * a) by nia.
     split; [apply in_seq; lia|].
     rewrite Ek. replace (step * a <? f + nv) with true by (symmetry; apply Nat.ltb_lt; lia).
@@ -344,9 +345,9 @@ Proof.
     pose proof (Nat.div_mod p step ltac:(lia)) as D.
     pose proof (Nat.mod_upper_bound p step ltac:(lia)) as R.
     assert (Hmono : p / step <= (f + nv - 1) / step) by (apply Nat.div_le_mono; lia).
-    assert (Hll : (f + nv - 1) / step <= f + nv - 1) by (apply Nat.div_le_upper_bound; nia).
+    assert (Hll : (f + nv - 1) / step <= (f + nv) / step) by (apply Nat.div_le_mono; lia).
     exists ((f + nv - 1) / step - p / step).
-    remember (p / step) as a. remember ((f + nv - 1) / step) as b. remember (p mod step) as r.
+    remember (p / step) as a. remember ((f + nv - 1) / step) as b. remember (p mod step) as r. remember ((f + nv) / step) as fuel.
     assert (Ek : step * (b + 1) - (b - a) * step = step * (a + 1)) by nia.
     split; [apply in_seq; lia|].
     rewrite Ek.
